@@ -16,9 +16,9 @@ def c_h_factor(period, site_class="C"):
     """
 
     single = 0
-    if isinstance(period, float):
+    if np.ndim(period) == 0:  # a single period: python float or int, numpy scalar
         single = 1
-        period = [period]
+        period = [float(period)]
     c_h_values = np.zeros(len(period))
     for i in range(len(period)):
         tt = period[i]
